@@ -114,7 +114,7 @@ ASSUMPTIONS = [
     "exception can depend on the order of the ctf-factors (only with domain graphs that lack a bidirected edge of the target: "
     "stream dropped_bi, not compared); (b) the dict of the final checks keyed by base name keeps the LAST of two entries of a "
     "vertex named in two worlds, once with and once without a value (CtfTr.finalChecksOrderSensitive; the driver reports it "
-    "and then only the validator verdict is compared; never observed: such runs end in FAIL before line 4)",
+    "and then only the validator verdict is compared; PROVED impossible on an answer: ctfTR_simplified_binds_once - a vertex in two worlds makes Algorithm 2 answer FAIL before line 4)",
     "ctf_no_internal_error: false of the current code on four crash classes (known findings); PROVED for the unconditional "
     "procedure outside them (ctfTRu_no_internal_error_partial: validated input, no self-intervened variable together with a "
     "valueless variable, plain event variables as built by the public wrapper, every domain graph keeps the target's "
@@ -1330,7 +1330,7 @@ MANIFEST = {
     "text": ("Partial. Lean theorems about the model Y0.Model.CtfTr of api.py (validators of ctfTRu / ctfTR as decision "
              "functions, Algorithm 4, Algorithm 2 composed from the `ctf` family's models of SIMPLIFY / counterfactual "
              "ancestors / ancestral components / ctf-factors and the `tian` family's model of IDENTIFY; Algorithm 3 complete: "
-             "derivation of D*, Algorithm 2 on it, line 4 and the five final checks), 55 theorems in Props/C09 + Props/C09Sound (ctfTRu_correct_partial states the three clauses for Algorithm 2 together): THE VALUE CLAUSE FOR ALGORITHM 2 IS PROVED (ctfTRu_sound_partial): whenever ctfTRu answers (x, ev) for a validated input without a self-intervened variable whose simplified event has no valueless item and lies in the decidable class ctfSoundClass, then in every family of functional SCMs compatible with the target graph and the declared domains, at every valuation carrying the returned event's values, x evaluated on the declared domain distributions equals the target probability of the queried event - composed, with no link left as a hypothesis, from C19 (SIMPLIFY preserves the probability; the ctf-factor factorisation, here as a sum of products of c-factors: ctf_factorisation_cfactors), the syntactic link between line 2 of Algorithm 2 and the factorisation, C17 (IDENTIFY, c-factor routines) through sigmaTR_sound_family (Algorithm 4 returns Q*[district] of the TARGET model) and the transportability lemma cfactor_transportability (no selection node into the district and no policy variable in it => same c-factor in source and target), with a concrete two-domain family as non-vacuity witness; ctfTRu_sound_free_partial / ctfTRu_sound_fun cover valueless items read as free variables; THE VALUE CLAUSE FOR ALGORITHM 3 IS PROVED inside the decidable class ctfTRSoundClass (ctfTR_sound_partial: one world across all ancestral components, outcomes found under their own name and over distinct vertices, no self-intervention, no literal subscript naming a summed vertex, D* in ctfSoundClass; every compatible family in which the conditions have positive probability; the returned fraction equals P*(outcomes and conditions)/P*(conditions)) - the two identities of ctfTR_sound_of_parts are discharged by a syntax-free semantic core (CondSem / cond_parts: composition axiom for the edges cut at conditioned ancestors, consistency of the members of the ancestral sets, marginalisation over valueless ancestors and over the outcomes, independence of the ancestral components without an outcome) and J = Q[V(D*)] (dstar_prob_eq_cfactor); ctfTR_zero_sound_partial (Zero only for impossible events, one-world D*) and ctfTR_correct_partial (the three clauses together) complete Algorithm 3; theorem and oracle are tied on every in-class conditional case. the validators reject with the documented classes only and an accepted "
+             "derivation of D*, Algorithm 2 on it, line 4 and the five final checks), 62 theorems in Props/C09 + Props/C09Sound (ctfTRu_correct_partial states the three clauses for Algorithm 2 together): THE VALUE CLAUSE FOR ALGORITHM 2 IS PROVED (ctfTRu_sound_partial): whenever ctfTRu answers (x, ev) for a validated input without a self-intervened variable whose simplified event has no valueless item and lies in the decidable class ctfSoundClass, then in every family of functional SCMs compatible with the target graph and the declared domains, at every valuation carrying the returned event's values, x evaluated on the declared domain distributions equals the target probability of the queried event - composed, with no link left as a hypothesis, from C19 (SIMPLIFY preserves the probability; the ctf-factor factorisation, here as a sum of products of c-factors: ctf_factorisation_cfactors), the syntactic link between line 2 of Algorithm 2 and the factorisation, C17 (IDENTIFY, c-factor routines) through sigmaTR_sound_family (Algorithm 4 returns Q*[district] of the TARGET model) and the transportability lemma cfactor_transportability (no selection node into the district and no policy variable in it => same c-factor in source and target), with a concrete two-domain family as non-vacuity witness; ctfTRu_sound_free_partial / ctfTRu_sound_fun cover valueless items read as free variables; THE VALUE CLAUSE FOR ALGORITHM 3 IS PROVED inside the decidable class ctfTRSoundClass (ctfTR_sound_partial: one world across all ancestral components, outcomes found under their own name and over distinct vertices, no self-intervention, no literal subscript naming a summed vertex, D* in ctfSoundClass; every compatible family in which the conditions have positive probability; the returned fraction equals P*(outcomes and conditions)/P*(conditions)) - the two identities of ctfTR_sound_of_parts are discharged by a syntax-free semantic core (CondSem / cond_parts: composition axiom for the edges cut at conditioned ancestors, consistency of the members of the ancestral sets, marginalisation over valueless ancestors and over the outcomes, independence of the ancestral components without an outcome) and J = Q[V(D*)] (dstar_prob_eq_cfactor); ctfTR_zero_sound_partial (Zero only for impossible events, one-world D*) and ctfTR_correct_partial (the three clauses together) complete Algorithm 3; theorem and oracle are tied on every in-class conditional case. the validators reject with the documented classes only and an accepted "
              "input has the stated shape (validateU_error_class, validateC_error_class, validateU_accepts, validateC_strict); "
              "an 'invalid input' outcome is exactly a rejection by the procedure's own validator and an accepted input is "
              "answered, refused, or ends in a non-validation error (ctfTRu_invalid_iff, ctfTRu_trichotomy, "
@@ -1349,7 +1349,7 @@ MANIFEST = {
              "expression returned by Algorithm 4 denotes Q[district] of the domain's model (sigmaTR_sound, via C17 "
              "cfactor_sound / tian_sound). NOT "
              "proved: the value clause outside ctfSoundClass (FALSE of the current code on the inputs of the open findings value:*), the value clause of Algorithm 3 outside ctfTRSoundClass (false on the findings cond:value:*; not decided for a literal subscript naming an outcome and multi-world queries the code happens to answer correctly), and the absence of non-validation errors in full "
-             "(ctf_no_internal_error: false on the crash classes of the findings, open on two further input classes of Algorithm 3). These clauses are decided on every run by the correspondence (validators exact; "
+             "(ctf_no_internal_error: false on the crash classes of the findings; for Algorithm 3 the two further input classes are decided: DstarOneWorld is not needed (ctfTR_no_internal_error_found_partial), OutcomeNotCondition is not needed for distributions over plain variables (ctfTR_no_internal_error_plain_partial) and needed for arbitrary ones (witness a3Shared, open finding crash:ctfTR-final-check:population-world), so OutcomesFound is the only crash class of Algorithm 3 for declared domains). These clauses are decided on every run by the correspondence (validators exact; "
              "Algorithms 2 and 3: verdict, returned event and exact value of the expression) and by the exact functional-SCM "
              "oracle (noise-space enumeration of P*(event), policies as fresh mechanisms): trichotomy, zero-soundness and "
              "value on every answered case."),
